@@ -69,19 +69,41 @@ structure Known where
   tagAsap2Version : Nat
   deriving Repr, Inhabited
 
-structure Env where
-  toks : Array PTok
-  strict : Bool
-  table : Table
-  code : List CodeEntry := []
-  known : Known := default
-  symbols : Array String := #[]
-
 /-- `ParseContext` -/
 structure Ctx where
   element : List Char
   fileid : Nat
   line : Nat
+  deriving Repr, Inhabited
+
+/-! ## values -/
+
+structure Info where
+  line : Nat
+  uid : Nat
+  startOff : Nat
+  endOff : Nat
+  fileid : Nat
+  deriving Repr, Inhabited, DecidableEq
+
+structure Cmt where
+  text : List Char
+  line : Nat
+  uid : Nat
+  startOff : Nat
+  included : Bool
+  deriving Repr, Inhabited, DecidableEq
+
+inductive Val where
+  | ident (s : List Char) (off : Nat)
+  | str (s : List Char) (off : Nat)
+  | int (v : Int) (hex : Bool) (off : Nat) (w : Nat)
+  | dbl (s : List Char) (off : Nat)
+  | enum (tag : List Char) (off : Nat)
+  | arr (vs : List Val)
+  | seq (vs : List Val)
+  /-- a block, keyword or struct: layout, parameters, one list of children per arm of its tagged part, comments -/
+  | block (ty : Nat) (info : Info) (fields : List Val) (children : List (List Val)) (comments : List Cmt)
   deriving Repr, Inhabited
 
 inductive PRes (α : Type) where
@@ -90,6 +112,17 @@ inductive PRes (α : Type) where
   | panic
   | fuel                             -- model-only: recursion budget exhausted (a hang of the real code, if reachable)
   deriving Inhabited
+
+structure Env where
+  toks : Array PTok
+  strict : Bool
+  table : Table
+  code : List CodeEntry := []
+  known : Known := default
+  symbols : Array String := #[]
+  /-- the hand-written parsers of the `special` types (A2ML, IF_DATA): a parameter here, instantiated by the
+      A2ML / IF_DATA model; arguments: type, context, start offset, tokens, strict -/
+  special : Nat → Ctx → Nat → Array PTok → Bool → PState → PRes Val := fun _ _ _ _ _ _ => .panic
 
 abbrev PM (α : Type) := Env → PState → PRes α
 
@@ -232,36 +265,6 @@ def getDouble (ctx : Ctx) : PM (List Char) := do
   match t.fl with
   | some r => pure r
   | none => fail .malformedNumber
-
-/-! ## values -/
-
-structure Info where
-  line : Nat
-  uid : Nat
-  startOff : Nat
-  endOff : Nat
-  fileid : Nat
-  deriving Repr, Inhabited, DecidableEq
-
-structure Cmt where
-  text : List Char
-  line : Nat
-  uid : Nat
-  startOff : Nat
-  included : Bool
-  deriving Repr, Inhabited, DecidableEq
-
-inductive Val where
-  | ident (s : List Char) (off : Nat)
-  | str (s : List Char) (off : Nat)
-  | int (v : Int) (hex : Bool) (off : Nat) (w : Nat)
-  | dbl (s : List Char) (off : Nat)
-  | enum (tag : List Char) (off : Nat)
-  | arr (vs : List Val)
-  | seq (vs : List Val)
-  /-- a block, keyword or struct: layout, parameters, one list of children per arm of its tagged part, comments -/
-  | block (ty : Nat) (info : Info) (fields : List Val) (children : List (List Val)) (comments : List Cmt)
-  deriving Repr, Inhabited
 
 /-! ## the generated parser shapes -/
 
@@ -477,6 +480,7 @@ def parseType (fuel : Nat) (ty : Nat) (ctx : Ctx) (startOff : Nat) : PM Val :=
         pure (.block ty ⟨ctx.line, uid, startOff, endOff, ctx.fileid⟩ fields children comments)
       else
         pure (.block ty ⟨ctx.line, uid, startOff, 0, ctx.fileid⟩ fields children comments)
+    | some .special => fun e s => e.special ty ctx startOff e.toks e.strict s
     | _ => panic
 
 end
